@@ -186,6 +186,13 @@ def writers(repo: Repo, rep):
             if key in WRITER_TABLE or base_key in WRITER_TABLE:
                 rep.ok("R-WRITERS", f, c, f"{kind} {desc}: {WRITER_TABLE.get(key) or WRITER_TABLE[base_key]}")
                 continue
+            # owners: the storage class owns writes below its directory, _format.py owns the formatter subprocess
+            if kind == "FS_WRITE" and f.cls is not None and f.cls.name == "DiscStorage" and f.module.rel == "_external.py" and "self.directory" in norm(c) + " ".join(norm(x) for x in body_nodes(f.node) if isinstance(x, ast.Assign)):
+                rep.ok("R-WRITERS", f, c, f"{kind} {desc}: inside DiscStorage, below self.directory (callers are constrained by R-WHO-MAY-WRITE)")
+                continue
+            if kind == "PROC" and f.module.rel == "_format.py":
+                rep.ok("R-WRITERS", f, c, f"{kind} {desc}: the formatter subprocess, owned by _format.py")
+                continue
             cfg = cfg_of(f)
             nodes = cfg.nodes_containing(c)
             tgt = c.func.value if isinstance(c.func, ast.Attribute) else (c.args[0] if c.args else None)
@@ -674,6 +681,17 @@ def xfail(repo: Repo, rep):
             tg, _ = cg.call_targets(f, c.ast)
             if any(t.key == "pytest_plugin.py::is_xfail" for t in tg):
                 xf.append(c)
+        elif isinstance(c.ast, ast.Name):
+            # the decision computed inline: a flag whose value derives from, or is set under a test of, the "xfail" marker
+            hit = derives_from(cfg, c, c.ast, lambda x: isinstance(x, ast.Constant) and x.value == "xfail")
+            if not hit:
+                from ..cfg import dominating_edges as _de
+
+                for d in reaching_defs(cfg, c, c.ast.id):
+                    if any(cn.kind == "cond" and "xfail" in norm(cn.ast) for cn, _ in _de(cfg, d)):
+                        hit = True
+            if hit:
+                xf.append(c)
     rep.floor("R-XFAIL", "is_xfail tests", len(xf), 1)
     for c in xf:
         starts = [b for b, l in c.succ if l == "T"]
@@ -780,7 +798,10 @@ def xfail_marker(repo: Repo, rep):
         "is_xfail decides from a marker view that includes markers inherited from the class / module (request.keywords, get_closest_marker, iter_markers), "
         "never from node.own_markers alone; it answers False only when no xfail marker is present or its first argument == False",
     )
-    f = repo.func("pytest_plugin.py::is_xfail")
+    f = repo.find_func("pytest_plugin.py", "is_xfail")
+    if f is None:
+        # decision inlined into the fixture: look at the statements of snapshot_check that mention the marker
+        f = repo.func("pytest_plugin.py::snapshot_check")
     attrs = {x.attr for x in body_nodes(f.node) if isinstance(x, ast.Attribute)}
     inherited = attrs & {"keywords", "get_closest_marker", "iter_markers"}
     if "own_markers" in attrs and not inherited:
@@ -789,6 +810,8 @@ def xfail_marker(repo: Repo, rep):
         rep.ok("R-XFAIL-MARKER", f, f.node, f"uses {sorted(inherited)}")
     else:
         rep.undecided("R-XFAIL-MARKER", "is_xfail uses none of the known marker views")
+        return
+    if f.name != "is_xfail":
         return
     # every `return False` is under 'marker absent' or 'first argument == False'
     cfg = cfg_of(f)
